@@ -934,10 +934,6 @@ class SearchConstraintSearchSince(BinarySeekSearchBase):  # noqa, pylint: disabl
                         fd.name)
             return None
 
-        if fd.name in self._results:
-            log.debug("using cached offset")
-            return self._results[fd.name]
-
         newpos = 0
         log.debug("c:%s: starting binary seek search to %s in file %s "
                   "(destructive=True)", self.id, self.since_date, fd.name)
